@@ -312,6 +312,45 @@ def stmtConcat (ends : Bool) : AStmt → Bool
 def ruleConcat (ends : Bool) (r : ARule) : Bool :=
   condAny (atomConcat ends) r.cond || r.stmts.any (stmtConcat ends)
 
+/-- a function-call / `test(...)` leaf with a string-literal ARGUMENT (`comma`: whose text contains a comma) -/
+def argIsLit (comma : Bool) (a : Str) : Bool :=
+  (a.head? == some '"' || a.head? == some '\'') && (!comma || a.contains ',')
+
+def atomArgLit (comma : Bool) : AAtom → Bool
+  | .call _ as _ _ | .test _ as => as.any (argIsLit comma)
+  | _ => false
+
+/-- the argument vectors of the function-call / `test(...)` leaves of a printed AST, left to right: the text between
+`(call ` / `(test ` and the `))` that closes the vector (hex tokens contain no parenthesis) -/
+def argVectors (obs : String) : List String :=
+  let cut (kw : String) := ((obs.splitOn kw).drop 1).map fun p => kw ++ ((p.splitOn "))").headD "")
+  cut "(call " ++ cut "(test "
+
+/-- an action with an argument list (custom call, method call, Log, the workflow forms) that has a string-literal argument
+(`comma`: whose body contains a comma) -/
+def litIsStr (comma : Bool) : ALit → Bool
+  | .str _ s => !comma || s.contains ','
+  | _ => false
+
+def stmtArgLit (comma : Bool) : AStmt → Bool
+  | .call _ as | .method _ _ as => as.any (litIsStr comma)
+  | .log v => litIsStr comma v
+  | .activate g | .complete g | .schedule _ g => !comma || g.contains ','
+  | _ => false
+
+/-- the rule list as the code is KNOWN to return it under the open findings F-C04i (`$Obj.method(args)` becomes the custom action
+`method(args)`: the object is lost) and F-C04j (`first $v` / `last $v` lose the variable): everything else — in particular the
+argument vector — must still be what was written -/
+def underFindings (r : ARule) : ARule :=
+  { r with
+    cond := r.cond.map fun
+      | .mfirst f _ => .mfirst f none
+      | .mlast f _ => .mlast f none
+      | a => a
+    stmts := r.stmts.map fun
+      | .method _ m as => .call m as
+      | s => s }
+
 def ruleMeta (r : ARule) : Bool :=
   condAny atomMeta r.cond || r.stmts.any stmtMeta
 
@@ -331,6 +370,10 @@ def tagsOf (c : Case) (rs : List ARule) : List String :=
   ++ (if n ≥ 2 then ["multi_rule"] else [])
   ++ (if rs.any ruleMeta then ["strlit_meta"] else [])
   ++ (if rs.any headerMeta then ["header_meta"] else [])
+  ++ (if rs.any (fun r => condAny (atomArgLit false) r.cond) then ["callarg_strlit"] else [])
+  ++ (if rs.any (fun r => condAny (atomArgLit true) r.cond) then ["callarg_strlit_comma"] else [])
+  ++ (if rs.any (fun r => r.stmts.any (stmtArgLit false)) then ["actionarg_strlit"] else [])
+  ++ (if rs.any (fun r => r.stmts.any (stmtArgLit true)) then ["actionarg_strlit_comma"] else [])
   ++ (if rs.any (ruleConcat false) then ["str_concat"] else [])
   ++ (if rs.any (ruleConcat true) then ["str_concat_lit_ends"] else [])
   ++ (if n ≥ 1 && sz ≥ 3 then ["nontrivial"] else [])
@@ -361,6 +404,13 @@ def oracleLine (line : String) : String :=
             let parts := obs.splitOn " ;; "
             let eparts := e.splitOn " ;; "
             let which := if parts.head? != eparts.head? then "parse_rules" else if parts.getD 1 "" != "=" then "parse_with_modules" else "parse_rule"
+            -- the argument vector observed == the argument vector written (function-call and test(...) leaves)
+            let k := if which == "parse_rules" then 0 else if which == "parse_with_modules" then 1 else 2
+            let seen := let p := parts.getD k ""; if p == "=" then parts.getD 0 "" else p
+            if !containsSub seen.toList "(err)".toList && argVectors seen != argVectors (eparts.getD 0 "") then s!"fail call_args@{which}" else
+            -- streams of the open findings: the observation must be the one the finding explains, nothing more
+            if (c.stream == "M:method" || c.stream == "M:firstvar") && expectedObs ext (rs.map underFindings) != some obs then
+              s!"fail beyond_finding@{which}" else
             s!"fail {which}"
   | _ => "bad-input"
 
